@@ -8,6 +8,7 @@ use crate::{common::FixedPoint, core::SourceSpan};
 const SECOND_PER_DAY: u64 = Second::per(Day) as u64;
 const SECOND_PER_HOUR: u64 = Second::per(Hour) as u64;
 const SECOND_PER_MINUTE: u64 = Second::per(Minute) as u64;
+const FEMPTOS_PER_NANOSECOND: u64 = 1_000_000;
 
 // See section 2.2.2
 #[derive(Debug, PartialEq, Clone)]
@@ -29,11 +30,11 @@ impl DurationLiteral {
         // The whole part is entirely seconds
         let whole_seconds = Duration::days(days.whole as i64);
 
-        // The fraction has both seconds and one part femptoseconds
-        let fraction_seconds = Duration::microseconds(
+        // The fraction of a day as nanoseconds
+        let fraction_seconds = Duration::nanoseconds(
             // Widen before multiplying: femptos * SECOND_PER_DAY exceeds u64 for
             // fractions of about 0.21 days and more.
-            (days.femptos as u128 * SECOND_PER_DAY as u128 / FixedPoint::FRACTIONAL_UNITS as u128)
+            (days.femptos as u128 * SECOND_PER_DAY as u128 / FEMPTOS_PER_NANOSECOND as u128)
                 as i64,
         );
 
@@ -56,9 +57,9 @@ impl DurationLiteral {
         // The whole part is entirely seconds
         let whole_seconds = Duration::hours(hours.whole as i64);
 
-        // The fraction has both seconds and one part femptoseconds
-        let fraction_seconds = Duration::microseconds(
-            (hours.femptos * SECOND_PER_HOUR / FixedPoint::FRACTIONAL_UNITS) as i64,
+        // The fraction of an hour as nanoseconds
+        let fraction_seconds = Duration::nanoseconds(
+            (hours.femptos * SECOND_PER_HOUR / FEMPTOS_PER_NANOSECOND) as i64,
         );
 
         Self {
@@ -80,9 +81,9 @@ impl DurationLiteral {
         // The whole part is entirely seconds
         let whole_seconds = Duration::minutes(minutes.whole as i64);
 
-        // The fraction has both seconds and one part femptoseconds
-        let fraction_seconds = Duration::microseconds(
-            (minutes.femptos * SECOND_PER_MINUTE / FixedPoint::FRACTIONAL_UNITS) as i64,
+        // The fraction of a minute as nanoseconds
+        let fraction_seconds = Duration::nanoseconds(
+            (minutes.femptos * SECOND_PER_MINUTE / FEMPTOS_PER_NANOSECOND) as i64,
         );
         Self {
             span: minutes.span,
